@@ -156,3 +156,142 @@ def aeropoint_setup(env):
         env.holds("C20", "AeroPoint set-up and run leave the arrays of the surface dictionary unchanged %s" % cfg, same)
         env.holds("C20", "AeroPoint outputs are finite at the default point %s" % cfg,
                   all(np.all(np.isfinite(p.get_val(n))) for n in ("ap.CL", "ap.CD", "ap.CM")))
+
+
+# ---------------------------------------------------------------------------------------------- frame: no shared state
+
+_MUTATORS = {"append", "extend", "insert", "update", "add", "setdefault", "pop", "popitem", "clear", "remove", "discard",
+             "sort", "reverse", "fill", "put", "resize", "itemset", "__setitem__"}
+
+
+def _mutable_value(node):
+    import ast
+    if isinstance(node, (ast.Dict, ast.List, ast.Set, ast.ListComp, ast.DictComp, ast.SetComp)):
+        return True
+    if isinstance(node, ast.Call):
+        f = node.func
+        nm = f.id if isinstance(f, ast.Name) else (f.attr if isinstance(f, ast.Attribute) else "")
+        return nm in ("dict", "list", "set", "defaultdict", "OrderedDict", "deque", "zeros", "ones", "empty", "full",
+                      "array", "arange", "linspace", "zeros_like", "ones_like", "bytearray")
+    return False
+
+
+def _shared_state_findings(tree):
+    """(kind, owner, name, line) for every container created once per class / per module and written through an instance
+    or from inside a function: state that two independent Problems in one process would share"""
+    import ast
+    out = []
+    mod_mut = {}
+    for st in tree.body:
+        if isinstance(st, (ast.Assign, ast.AnnAssign)) and st.value is not None and _mutable_value(st.value):
+            for t in (st.targets if isinstance(st, ast.Assign) else [st.target]):
+                if isinstance(t, ast.Name):
+                    mod_mut[t.id] = st.lineno
+
+    def writes(fn, base_test):
+        """names X such that  <base>.X[...] = / <base>.X.mutator(...) / <base>.X op= ...  occurs in fn"""
+        found = []
+        for n in ast.walk(fn):
+            tgts = []
+            if isinstance(n, ast.Assign):
+                tgts = n.targets
+            elif isinstance(n, ast.AugAssign):
+                tgts = [n.target]
+            elif isinstance(n, ast.Delete):
+                tgts = n.targets
+            for t in tgts:
+                for tt in (t.elts if isinstance(t, (ast.Tuple, ast.List)) else [t]):
+                    b = tt
+                    sub = False
+                    while isinstance(b, ast.Subscript):
+                        b = b.value
+                        sub = True
+                    nm = base_test(b)
+                    if nm and (sub or isinstance(n, ast.AugAssign)):
+                        found.append((nm, n.lineno))
+            if isinstance(n, ast.Call) and isinstance(n.func, ast.Attribute) and n.func.attr in _MUTATORS:
+                nm = base_test(n.func.value)
+                if nm:
+                    found.append((nm, n.lineno))
+        return found
+
+    for c in [n for n in ast.walk(tree) if isinstance(n, ast.ClassDef)]:
+        cls_mut = {}
+        for st in c.body:
+            if isinstance(st, (ast.Assign, ast.AnnAssign)) and st.value is not None and _mutable_value(st.value):
+                for t in (st.targets if isinstance(st, ast.Assign) else [st.target]):
+                    if isinstance(t, ast.Name):
+                        cls_mut[t.id] = st.lineno
+        methods = [m for m in c.body if isinstance(m, (ast.FunctionDef, ast.AsyncFunctionDef))]
+        rebound = set()
+        for m in methods:
+            for n in ast.walk(m):
+                if isinstance(n, ast.Assign):
+                    for t in n.targets:
+                        if isinstance(t, ast.Attribute) and isinstance(t.value, ast.Name) and t.value.id == "self":
+                            rebound.add(t.attr)
+
+        def self_attr(b, cls_mut=cls_mut, cname=c.name):
+            if isinstance(b, ast.Attribute) and isinstance(b.value, ast.Name) and b.value.id in ("self", "cls", cname) \
+                    and b.attr in cls_mut:
+                return b.attr
+            if isinstance(b, ast.Attribute) and isinstance(b.value, ast.Call) and isinstance(b.value.func, ast.Name) \
+                    and b.value.func.id == "type" and b.attr in cls_mut:
+                return b.attr
+            return None
+        for m in methods:
+            for nm, ln in writes(m, self_attr):
+                if nm not in rebound:
+                    out.append(("class attribute", c.name, nm, ln))
+            # class attributes rebound on the class itself from a method
+            for n in ast.walk(m):
+                if isinstance(n, (ast.Assign, ast.AugAssign)):
+                    for t in (n.targets if isinstance(n, ast.Assign) else [n.target]):
+                        if isinstance(t, ast.Attribute) and isinstance(t.value, ast.Name) and t.value.id in ("cls", c.name):
+                            out.append(("class attribute (rebound on the class)", c.name, t.attr, n.lineno))
+    # module-level containers written from functions, and `global` rebinding
+    for f in [n for n in ast.walk(tree) if isinstance(n, (ast.FunctionDef, ast.AsyncFunctionDef))]:
+        local = {a.arg for a in f.args.args + f.args.kwonlyargs} | {n.id for n in ast.walk(f) if isinstance(n, ast.Name) and isinstance(n.ctx, ast.Store)}
+        glob = set()
+        for n in ast.walk(f):
+            if isinstance(n, ast.Global):
+                glob |= set(n.names)
+        for g in glob:
+            out.append(("module global (rebound)", f.name, g, f.lineno))
+
+        def mod_name(b, local=local, glob=glob):
+            if isinstance(b, ast.Name) and b.id in mod_mut and (b.id not in local or b.id in glob):
+                return b.id
+            return None
+        for nm, ln in writes(f, mod_name):
+            out.append(("module container", f.name, nm, ln))
+    return out
+
+
+@job("c20.no_shared_state", ("C20", "C03"))
+def no_shared_state(env):
+    """frame condition over every module of the package (unbounded in configurations): methods and functions write only
+    to instance attributes, their arguments and locals - never to containers owned by a class or a module, which every
+    Problem in the process would share.  Decided on the syntax tree of the current sources."""
+    import ast
+    import os
+    import openaerostruct
+    root = os.path.dirname(openaerostruct.__file__)
+    nfiles = 0
+    for dp, dn, fns in sorted(os.walk(root)):
+        if any(part in ("tests", "docs", "examples") for part in dp[len(root):].split(os.sep)):
+            continue
+        for fn in sorted(fns):
+            if not fn.endswith(".py"):
+                continue
+            path = os.path.join(dp, fn)
+            rel = os.path.relpath(path, os.path.dirname(root))
+            tree = ast.parse(open(path).read(), path)
+            finds = _shared_state_findings(tree)
+            nfiles += 1
+            env.functions.add(rel)
+            env.holds("C20,C03", "no class-level or module-level container is written from a method or function [%s]" % rel,
+                      not finds, "; ".join("%s %s.%s written at line %d" % f for f in finds[:5]), static=True)
+    env.holds("C20", "the frame scan saw the package's modules", nfiles > 40, "only %d files" % nfiles)
+    env.assumptions.add("frame scan is syntactic: writes through aliases (x = self.table; x[k] = v) and through "
+                        "setattr/vars()/__dict__ are not seen")
